@@ -145,6 +145,10 @@ def attribute(f, woven):
     clause = ''
     fn = None
     for s in f.spans:
+        # only the clause that failed carries the attribution: the primary span, or the secondary span Verus labels
+        # "failed precondition" / "failed this postcondition"; "at the end of the function body" etc. cover unrelated lines
+        if not (s['is_primary'] or (s.get('label') and 'failed' in s['label'])):
+            continue
         for ln in range(s['line_start'] - 1, min(s['line_end'], n)):
             if ln < 0 or ln >= n:
                 continue
@@ -168,6 +172,11 @@ def attribute(f, woven):
     f.clause = clause
     f.labels = labels
     f.props = frozenset(tagged) if tagged else frozenset(primary_default)
+    # machine-arithmetic side conditions (overflow, division by zero) are panic-freedom obligations: they belong to C18 where the
+    # code is tagged for it, and to no other property (a new counter `n += 1` is not a convergence defect)
+    if re.search(r'possible (arithmetic|division|bit shift)', f.message):
+        f.props = frozenset(p for p in f.props if p == 'C18')
+        f.side_condition = True
 
 
 def _explicit(woven, ln):
